@@ -121,7 +121,7 @@ func ptrList[T any](xs []*T) []bool {
 //	F <nb> batch* <ni> iatbatch*
 //	batch    := N | B <kind> hdr <ctl> <adv> <off> <ne> entry* <na> adventry*
 //	hdr      := N | H <sec> <scc>
-//	entry    := N | E <cat> <transaction code> <a02 a98 a98r a99 a99d a99c> <a05 bits>
+//	entry    := N | E <cat> <transaction code> <a02 a98 a98r a99 a99d a99c offset-named> <a05 bits>
 //	adventry := N | A <cat> <transaction code> <a99>
 //	iatbatch := I ihdr <ctl> <ne> ientry*
 //	ihdr     := N | H <scc> <iatcor: IATIndicator == "IATCOR" && SEC == COR>
@@ -150,7 +150,7 @@ func encodeFile(f *ach.File) string {
 				continue
 			}
 			add("E", fmt.Sprint(catIndex(e.Category)), fmt.Sprint(codeOf(e.TransactionCode)),
-				bit(e.Addenda02 != nil)+bit(e.Addenda98 != nil)+bit(e.Addenda98Refused != nil)+bit(e.Addenda99 != nil)+bit(e.Addenda99Dishonored != nil)+bit(e.Addenda99Contested != nil),
+				bit(e.Addenda02 != nil)+bit(e.Addenda98 != nil)+bit(e.Addenda98Refused != nil)+bit(e.Addenda99 != nil)+bit(e.Addenda99Dishonored != nil)+bit(e.Addenda99Contested != nil)+bit(strings.EqualFold(e.IndividualName, "OFFSET")),
 				bits(ptrList(e.Addenda05)))
 		}
 		as := b.GetADVEntries()
